@@ -24,7 +24,7 @@ CHECKS = {
         text="Decides on MIR: (X1) every arithmetic op of the fee predicate discharged by intervals over the full input ranges, None arms of checked "
              "ops return false, in both overflow configurations (thorough); (X2) the returned comparison's operator tree, checked ops read as exact on "
              "their Some paths, equals total >= amount + base + floor(amount*ppm/10^6); (T) field widths; (F) the failure encoder's byte layout per "
-             "variant equals 0x20,26||be32||be32||be16 and the two constant codes; (P) the policy payload is HtlcManagerParams::routing_policy; (G) gates; (P) no field of the params/policy is modified after construction; (W) option wiring; (Q) request fields verbatim; (L) without stored state the lifecycle waits the configured timeout itself before its select, so a queued rejection is delivered whenever that timeout is non-zero (C11-T1/T4).",
+             "variant equals 0x20,26||be32||be32||be16 and the two constant codes; (P) the policy payload is HtlcManagerParams::routing_policy; (G) gates; (P) no field of the params/policy is modified after construction; (W) option wiring; (Q) request fields verbatim; (N) every classified HTLC with a forward amount reaches the gates (C13-N1); (L) without stored state the lifecycle waits the configured timeout itself before its select, so a queued rejection is delivered whenever that timeout is non-zero (C11-T1/T4).",
         note="Exactness over u64 x u64 x u32 x u32 follows from X1+X2, it is not enumerated. Only cmp(total, sum) / cmp(total-amount, sum) shapes are accepted as normal form.",
         design="5/C12"),
     "C02": dict(
@@ -123,13 +123,13 @@ CHECKS = {
         technique="ADT statelessness table + consume-exactly-once rule on decoders + exactly-once send counting + cancel-safety/lock-scope rules on the driver (MIR)",
         text="Decides D1 (codecs have no state), D2 (line decoder: Ok(None) leaves the buffer, Some consumes split_to(offset+2) with a whole-buffer search for two newlines; "
              "JSON layers call the inner decoder once), R1 (per-request task replies exactly once, id = request id, one of result/error; the hand-off to the writer is an awaited send, never try_send), R2 (the raced reader future awaits "
-             "only FramedRead::next; handlers behind spawn), R3 (one FramedRead for handshake and driver loop, never taken apart), T (request ids are carried as arbitrary JSON values), W (all output through the single guarded FramedWrite, awaited under the guard, not raced; frame = text+2 newlines; "
+             "only FramedRead::next; handlers behind spawn), R3 (one FramedRead for handshake and driver loop, never taken apart), T (request ids are carried as arbitrary JSON values), R4 (the builder's rpcmethods / hooks / subscriptions maps are each moved into their dispatch table exactly once), W (all output through the single guarded FramedWrite, awaited under the guard, not raced; frame = text+2 newlines; "
              "no other stdout writes), P (panic discipline on codec/driver/logging).",
         note="Not decided: tokio_util Framed* internals; the node's framing.", design="5/C17"),
     "C19": dict(
         technique="def-use provenance from option constants to parameter sinks through checked conversions + registered/read set comparison + dominance of the init reply (MIR)",
         text="Decides W (each sink is cp.option(expected option) via `?`/checked TryInto to the declared width/from_secs/Not only), R (registered superset of read), O (start only when policy "
-             "delta > safety delta, after all conversions), C (retry_for saturating at u16::MAX, forwarded; cltv_delta reaches the max-delay formula), D (one policy aggregate), I (params and policy are never modified after construction), J (the framework stores integer option values as the JSON number's as_i64()).",
+             "delta > safety delta, after all conversions), C (retry_for saturating at u16::MAX, forwarded; cltv_delta reaches the max-delay formula), D (one policy aggregate), I (params and policy are never modified after construction), J (the framework stores integer option values as the JSON number's as_i64(), and takes an option's default only where lightningd sent no value).",
         note="Not decided: CLN's parsing of option strings; handle_init's as_i64().unwrap() (pre-init, outside handler scope).", design="5/C19"),
     "C20": dict(
         technique="who-writes rule through the height guard + dominating comparison + loop-exit reachability on the poll loop (MIR)",
